@@ -27,7 +27,12 @@ RULE = ('(1) exhaustive: the 103 exception classes of the model enum (names, dir
         'get_chunk / get_chunk_or_default / get_chunk_or_placeholder; (2) every truncation offset (quick: all header '
         'offsets plus a sample of body offsets) of chunk files written by the real NPY store (plain and direct_write) '
         'and of objects served by a loopback HTTP server with the full Content-Length, for several dtypes/shapes, plus '
-        'a few non-prefix corruptions; (3) dtype/shape mismatch matrix on the dict, NPY and S3 stores; (4) store-level '
+        'a few non-prefix corruptions; (2b) the S3 read as ONE HTTP response = (bytes the server holds under the key: the '
+        'object truncated IN THE STORE at byte k, Content-Length it announces: honest k / whole object / none / any other '
+        'number, bytes it delivers): every k of a 140-byte object with the honest Content-Length, header-boundary / last-byte '
+        '/ random k for three more geometries, transfers cut in flight, no Content-Length, and random (held, delivered, '
+        'announced) triples incl. Content-Length shorter / longer than what arrives -- compared with the response-level '
+        'model (wire 83) and with "data only if the whole object arrived"; (3) dtype/shape mismatch matrix on the dict, NPY and S3 stores; (4) store-level '
         'faults (missing directory, EACCES as an unprivileged uid, ENOTDIR, EISDIR, 401/403, missing/empty bucket, '
         'connection refused); (5) the same faults under ChunkStoreVisFlagsWeights of a v4 data set (NPY and S3); '
         '(5b) data sets (T, F <= 6; B <= 4, or 4 / 12 through VisibilityDataV4) whose four arrays are chunked '
@@ -46,9 +51,21 @@ RULE = ('(1) exhaustive: the 103 exception classes of the model enum (names, dir
         '8192-byte boundaries, file end, padded end plus a seeded random sample strictly inside header and body '
         '(thorough: every offset of files <= 2500 bytes, more geometries incl. a 96128-byte chunk); the straced '
         'system-call results of every put are fed to the model state machine as its event list and report, final '
-        'state, temp state and the calls issued are compared.  A case is non-trivial when a fault is present; '
+        'state, temp state and the calls issued are compared; (8) writing to the S3 store through the loopback endpoint: '
+        'put_chunk / put_chunk_noraise answered with EVERY status of a list (2xx: 200 201 204; 13 client errors; 12 server '
+        'errors incl. 501 505 507 508 511 outside and 500 502 503 504 inside the retry force list; 301 / 307 without '
+        'Location) under six Retry configurations (the store default, force list with 0 / 1 / 2 status retries, no force '
+        'list, a custom force list), answer SEQUENCES (glitch x k then 2xx / 4xx / 5xx), put_dask_array with per-block '
+        'answers (the store running full halfway), mark_complete (bucket PUT x marker PUT answers, 409 = exists), nobody '
+        'listening, a chunk that does not fit its slices: outcome, what is in the store afterwards and the attempts made '
+        'are compared with the model (wire 83) and with "success reported => the complete object is in the store; every '
+        'attempt refused => a ChunkStoreError is raised / returned".  A case is non-trivial when a fault is present; '
         'distinct by (part, store, geometry, fault, offset / limit, previous chunk).')
-ASSUMPTIONS = ['S3 cases use retries=0 so a persistent truncation exhausts the read retries at once (retry schedule: C09)',
+ASSUMPTIONS = ['S3 responses: the loopback server sends exactly the planned bytes and closes; a blocking socket read returns '
+               'everything that arrives before the close (so one read() / readinto() sees all of it)',
+               'S3 puts: a status inside the Retry force list is only answered to stores whose Retry object has backoff 0 '
+               '(the default object would sleep 10 s+ between attempts); 1xx and 3xx-with-Location answers are not generated',
+               'S3 cases use retries=0 so a persistent truncation exhausts the read retries at once (retry schedule: C09)',
                'a SIGKILL injected on entry of a system call may or may not let that call take effect: both model '
                'crash points k and k+1 are accepted',
                'the short-write case needs permission to mount a 16 KiB tmpfs; it is skipped (and counted) otherwise',
